@@ -105,12 +105,18 @@ def make_case(case, seed, thorough):
     sport = rng.choice([443, 443, 443, 44330, 8443, 4433, 1, 65535])
     ep = tcpcap.random_ep(rng, sport=sport)
     segs = tcpcap.segments(conn.events, ep, tcpcap.make_cutter(rng, segkind, conn.events))
+    if case["kind"] == "random" and case["i"] % 12 == 7:
+        segs, ok = tcpcap.add_tfo(segs, server=case["i"] % 24 == 7)     # TCP Fast Open: ClientHello (segment) on the SYN
+        segkind += "+tfo" if ok else ""
     if case["kind"] == "random" and rng.random() < 0.12:
         segs = tcpcap.add_repacketized(segs, rng, rng.choice([1, 2]))   # retransmission that coalesces the following segment(s)
         segkind += "+repack"
     if case["kind"] == "random" and rng.random() < 0.25:
         segs = tcpcap.interleave_app(segs, conn.events, rng)        # full-duplex application phase
         segkind += "+duplex"
+    if case["kind"] == "random" and case["i"] % 10 == 3:
+        segs = tcpcap.displace_across(segs, conn.events, rng, rng.choice([1, 2, 3]), maxdist=rng.choice([1, 2]))      # a segment captured after the peer's reply to it
+        segkind += "+across"
     fl = scene.tls_flow(conn, ep, segs)
     items = scene.stamp(scene.merge([fl], rng, "concat"), rng, rng.choice(scene.TS_STYLES + ["coarse"]))
     extra = []
